@@ -89,7 +89,7 @@ enga_prop!(C13A, "C13", profiles = CHECKED,
     assumptions = { let mut v = COMMON_ASSUME.to_vec(); v.push("release of the backing store is observed through the verif Unmount event at the top of Memory::unmount (one event = one release)"); v });
 
 enga_prop!(C18, "C18", profiles = CHECKED,
-    profile = { let mut p = Profile::base(); p.flavors = &[Fl::Unsync]; p.w_clone = 0; p.w_droparena = 0; p.w_truncate = 14; p.w_fill = 8; p.w_drop = 35; p.w_detach = 10; p.backends = &[(4, Backend::Vec), (3, Backend::Anon), (3, Backend::File)]; p },
+    profile = { let mut p = Profile::base(); p.flavors = &[Fl::Unsync]; p.w_clone = 0; p.w_droparena = 0; p.w_truncate = 14; p.w_fill = 8; p.w_drop = 35; p.w_detach = 10; p.w_minseg = 2; p.w_incdisc = 2; p.w_reopen = 3; p.reopen_modes = &[(3, 0), (3, 1), (1, 2), (1, 3)]; p.backends = &[(4, Backend::Vec), (3, Backend::Anon), (3, Backend::File)]; p },
     mode = Mode::default(),
     nontrivial = |c| c.contains("truncate-with-freelist-and-live"),
     rule = "Engine A histories on unsync::Arena with truncate(n), n around allocated()/capacity() and up to 4x capacity, on Vec/anon/file backends; oracle: capacity()==max(n, allocated), allocated/discarded/free list/bytes below allocated unchanged, live ranges intact, afterwards an allocation that fits fresh space must succeed. Non-trivial = a truncate while the free list was non-empty and detached live data existed",
